@@ -282,7 +282,7 @@ impl Property for C05 {
             k += sstride;
         }
         for t in &started {
-            for kind in ["exit=1", "sig=9", "eagain"] {
+            for kind in ["exit=1", "sig=9", "eagain", "midfail=2"] {
                 items.push(Item::Fail { target: t.clone(), kind: kind.into(), revert: false, io: None });
             }
         }
